@@ -482,6 +482,12 @@ def rules(rep, m):
         r12.ok()
 
 
+    # R-C10-14 -----------------------------------------------------------
+    r14 = rep.rule("R-C10-14", "clearing the event queue forgets every key: the wipe covers the whole hash map of the current size "
+                   "(shared with R-C02-5 / R-C01-9) - a key that survives is found again, cancels an unrelated live event, and "
+                   "the next reschedule aborts on the count assertion", floor=1)
+    c02.layout_rules(rep, r14, m, clear_only=True)
+
     # R-C10-13 -----------------------------------------------------------
     r13 = rep.rule("R-C10-13", "scratch arrays: every subscript of a locally allocated array - in the allocating function and "
                    "in the library function the array is handed to - stays below the allocated element count (polynomial "
